@@ -24,7 +24,7 @@ MANIFEST_INFO = {
     "engine": "B",
     "design_ref": "DESIGN.md section 5, C09",
     "technique": "exhaustive enumeration of well-formed TestResult histories (0-3 tests x six outcomes x exc_info / reason / details forms, run- and test-level tags incl. a tag change between outcome and stopTest, explicit (ascending, or set back inside a test) or implicit times) x detail payload shapes (0-2 details, 11 chunk lists (one cutting a UTF-8 sequence in two) incl. empty chunks, 4 content types with parameters, non-ASCII and empty names, non-ASCII reasons), each replayed on a fresh real ExtendedToStreamDecorator -> {stream recorder, StreamToExtendedDecorator -> extended recorder} pipeline; stream well-formedness and per-test round-trip equality oracles",
-    "level_text": "Every single-test history over all ~9000 (outcome, form, payload) variants x 4 tag/time settings, every two-test history over a 60-variant alphabet (thorough: 3 tests over 14 variants, 2 tests over 120), is pushed through the real converters. Between them the stream must show per test one 'inprogress', then each detail's chunks in order with eof exactly on its last chunk, then exactly one final status; at the far end each test must reappear as one startTest/outcome/stopTest bracket with the same id, the mapped outcome (error -> failure), the tags current at its outcome, the supplied times, the skip reason and every non-empty detail with identical bytes and content type. Further settings: content types built on the spot by each test (the next one allocated at the address of a dead one - the harness insists and counts), the converters reused for a second run without any time() and for a third in which a supplied time is withdrawn again with time(None).",
+    "level_text": "Every single-test history over all ~9000 (outcome, form, payload) variants x 4 tag/time settings, every two-test history over a 60-variant alphabet (thorough: 3 tests over 14 variants, 2 tests over 120), is pushed through the real converters. Between them the stream must show per test one 'inprogress', then each detail's chunks in order with eof exactly on its last chunk, then exactly one final status; at the far end each test must reappear as one startTest/outcome/stopTest bracket with the same id, the mapped outcome (error -> failure), the tags current at its outcome, the supplied times, the skip reason and every non-empty detail with identical bytes and content type. Further settings: a first test whose id is the empty string, content types built on the spot by each test (the next one allocated at the address of a dead one - the harness insists and counts), the converters reused for a second run without any time() and for a third in which a supplied time is withdrawn again with time(None).",
     "level_note": "Content types are within the C16 round-trip envelope; details consisting only of empty chunks need not reappear; without explicit time() only the presence of timestamps is checked.",
 }
 
